@@ -33,25 +33,18 @@ Proof. exact set_values_get. Qed.
 Print Assumptions latest_binding_wins_batch.
 
 (* keys are compared by (length, bytes): no prefix matches, NUL bytes and the empty key are ordinary;
-   the only other match is the default-constructed node of an empty batch against the empty key (F20) *)
-Theorem key_comparison_exact : forall key n,
-  node_matches key n = true <-> (n_key n = Some key \/ (n_key n = None /\ key = [])).
+   the key-less node of an empty batch matches nothing *)
+Theorem key_comparison_exact : forall key n, node_matches key n = true <-> n_key n = Some key.
 Proof. exact node_matches_spec. Qed.
 Print Assumptions key_comparison_exact.
 
-(* F20 (open finding): SetValues of an EMPTY batch should answer exactly as the parent.  It does for every
-   non-empty key; the empty key is shadowed.  Full statement (refuted):
-     forall h c k, get_value (fst (set_values h c [])) (snd (set_values h c [])) k = get_value h c k *)
-Theorem setvalues_empty_batch_partial : forall h c k,
-  get_value (fst (set_values h c [])) (snd (set_values h c [])) k = if is_nilb k then vnone else get_value h c k.
-Proof. exact set_values_empty_get. Qed.
-Print Assumptions setvalues_empty_batch_partial.
-
-Theorem setvalues_empty_batch_refuted : exists h c,
-  ctx_ok h c /\ get_value h c [] <> vnone /\
-  get_value (fst (set_values h c [])) (snd (set_values h c [])) [] = vnone.
-Proof. exact ProofsProps.setvalues_empty_batch_refuted. Qed.
-Print Assumptions setvalues_empty_batch_refuted.
+(* SetValues / Context(iterable) of an EMPTY iterable: every key, the empty key included, answers as the parent
+   (finding F20, repaired in /repo 4bc3189; before the repair the empty key was shadowed) *)
+Theorem setvalues_empty_batch_keeps_parent : forall h c k,
+  get_value (fst (set_values h c [])) (snd (set_values h c [])) k = get_value h c k /\
+  has_key (fst (set_values h c [])) (snd (set_values h c [])) k = has_key h c k.
+Proof. exact set_values_empty_keeps_parent. Qed.
+Print Assumptions setvalues_empty_batch_keeps_parent.
 
 (* "The runtime context of a thread behaves as a stack": the array {size_, capacity_, base_[]} with Push / Resize /
    Pop / Detach as coded is a list, for every operation sequence, across every reallocation. *)
@@ -129,14 +122,13 @@ Theorem threads_isolated : forall sched m t,
 Proof. exact ProofsProps.threads_isolated. Qed.
 Print Assumptions threads_isolated.
 
-(* the checker that ./check runs on the implementation's observations accepts the model's observation of every
-   program that parses and stays outside the reach of F20 (no empty batch, or no empty key queried) *)
+(* the checker that ./check runs on the implementation's observations accepts the model's observation of EVERY
+   program that parses (threads included) *)
 Theorem model_meets_spec : forall l m ts,
-  parse_case l = Some (m, ts) -> case_safe m ts -> run_spec l (run_model l) = [].
+  parse_case l = Some (m, ts) -> run_spec l (run_model l) = [].
 Proof. exact model_meets_spec_wire. Qed.
 Print Assumptions model_meets_spec.
 
-Theorem model_meets_spec_refuted_by_F20 :
-  run_spec f20_witness (run_model f20_witness) = fail "setvalues_empty_batch:empty_key_shadowed".
-Proof. exact setvalues_empty_batch_refuted_witness. Qed.
-Print Assumptions model_meets_spec_refuted_by_F20.
+Theorem model_meets_spec_cases : forall m ts, check_case m ts (run_case m ts) = [].
+Proof. exact check_case_model. Qed.
+Print Assumptions model_meets_spec_cases.
